@@ -335,6 +335,66 @@ def check_suppression_sites(ctx, cfg):
     return n
 
 
+UNINIT_MAKERS = ("core::mem::MaybeUninit::<T>::uninit", "core::mem::MaybeUninit::<T>::zeroed", "alloc::boxed::Box::<T>::new_uninit", "alloc::boxed::Box::<T>::new_zeroed",
+                 "alloc::boxed::Box::<T, A>::new_uninit_in", "core::mem::MaybeUninit::<[T; N]>::uninit_array")
+
+
+def bare_generic(t, depth=0):
+    """The type mentions a generic parameter that is NOT under MaybeUninit / PhantomData: a value of it contains real elements."""
+    if t is None or depth > 8:
+        return False
+    k = t.get("k")
+    if k == "param":
+        return True
+    if k == "adt":
+        if t["def"] in ("core::mem::MaybeUninit", "core::marker::PhantomData"):
+            return False
+        if t["def"].split("::")[-1] == "GenericArray":
+            # GenericArray<X, N>: N is a type-level length, not data
+            xs = [x for x in t.get("args", []) if x.get("k") not in ("region", "const", "cparam")]
+            return bool(xs) and bare_generic(xs[0], depth + 1)
+        return any(bare_generic(x, depth + 1) for x in t.get("args", []) if x.get("k") not in ("region", "const", "cparam"))
+    if k in ("array", "slice"):
+        return bare_generic(t["t"], depth + 1)
+    if k == "tuple":
+        return any(bare_generic(x, depth + 1) for x in t["ts"])
+    if k == "alias":
+        return True
+    return False
+
+
+def check_no_conjured_elements(ctx, cfg, rule="C03.U"):
+    """No element out of nothing: `assume_init` that turns FRESH uninitialised storage (the direct result of MaybeUninit::uninit / Box::new_uninit ..)
+    into a type holding real elements must be preceded by a builder's finish() - whose completeness is C03.F's obligation. Storage whose element
+    type is still MaybeUninit (`GenericArray::uninit`) and values derived from an argument (reinterpretations) are not concerned."""
+    db = ctx.db(cfg)
+    n = 0
+    for b in db.bodies:
+        if b["kind"] not in ("Fn", "AssocFn", "Closure"):
+            continue
+        if b["kind"] != "Closure" and ctx.is_helper(cfg, b):
+            continue
+        if not any(t["term"]["k"] == "call" and t["term"]["f"].get("k") == "fn" and t["term"]["f"]["def"].endswith(("::assume_init", "::assume_init_read")) for t in b["mir"]["blocks"]):
+            continue
+        a = ctx.analysis(cfg, b["key"])
+        makers = [c for c in a.calls if c.fn in UNINIT_MAKERS]
+        fins = [c for c in a.calls if c.key in FINISH_KEYS]
+        for j, c in enumerate([c for c in a.calls if c.fn.endswith(("::assume_init", "::assume_init_read")) and c.fn.startswith(("core::mem::MaybeUninit", "alloc::boxed::Box"))]):
+            inner = c.targs[0] if c.targs else None
+            n += 1
+            if not bare_generic(inner):
+                continue
+            fresh = [m for m in makers if m.ret == c.args[0] or (c.args[0][0] == "P" and m.ret[0] == "P" and m.ret[1] == c.args[0][1])]
+            if not fresh:
+                continue
+            filled = any(a.dominates(f.bb, c.bb) for f in fins)
+            ctx.ob(rule, "%s#assume_init#%d" % (b["key"], j), filled,
+                   "assume_init::<%s> of storage freshly made by %s: %s" % (tstr(inner), fresh[0].fn.split("::")[-1], "after a builder's finish()" if filled else
+                      "nothing initialised it (elements out of nothing: whatever owned the real elements still drops them, and so does the result)"), at=c.at, cfg=cfg)
+    ctx.ob(rule, "assume_init sweep (%s)" % cfg, n >= 1, "assume_init call sites examined: %d" % n, cfg=cfg)
+    return n
+
+
 def check_assume_init(ctx, cfg):
     rule = "C03.A"
     n = 0
@@ -398,6 +458,7 @@ def check(ctx):
         n = 0
         n += c09.check_owned_ops(ctx, cfg, rule="C03.T")
         n += check_assume_init(ctx, cfg)
+        check_no_conjured_elements(ctx, cfg)
         ctx.floor("C03.T", "tiling / whole-value reinterpretation instances (%s)" % cfg, n, 11)
         p = c04.check_closures(ctx, cfg, want_normal=True, rule_p="C03.P")
         ctx.floor("C03.P", "element-moving closures (%s)" % cfg, p, 1)
